@@ -10,6 +10,12 @@ package main
 //	(1 dynty (iface..) #key val #typedname (la lb)) -> (anyfield anycalls typedfield equals) | (-1)
 //	(2 (#name #key val) (#name #key val) (la lb))   -> (r12 r21 r11 r22)   r: 0 false, 1 true, 2 panic
 //
+// Concurrent calls (c03_conc.go).  The constructors and zap.Any are functions of their arguments and are
+// called from many goroutines at once; classes "concurrent:*" / "concurrent-any:*" are cases of kind 0 / 1
+// whose Field was returned by a call made WHILE other goroutines were calling zap.Any and the constructors
+// on other dynamic types and values: every call whose Field differs from the one the same call returns
+// when made alone, and a sample of the agreeing ones.
+//
 // Errors.  An error value is projected with everything an encoder can learn from it (c03EInfo: does
 // Error() panic, on a nil pointer or not; the message; the %+v text of a fmt.Formatter; the members of an
 // error group, recursively), and the recording encoder observes an error as the calls
@@ -1045,6 +1051,9 @@ func c03(c *Ctx) {
 		}
 		emitPair(a, b, "cross")
 	}
+	// 4. concurrent calls: G goroutines call zap.Any and the constructors in parallel on different dynamic
+	// types and values; every Field is compared with the one the same call returns when made alone (c03_conc.go)
+	c03Concurrent(c, g, keys)
 	c.Info("time_repr_pairs_skipped", fmt.Sprint(skippedRepr))
 	c.Info("constructors", fmt.Sprint(len(genC03Ctors)))
 	c.Info("user_types", fmt.Sprint(len(c03UserTypeIDs)))
